@@ -181,6 +181,22 @@ Theorem C10_no_error_to_departed : forall (k : mstate) c active to s,
   In (MON, NoReply to s) (snd (mini_disconnect k c active)) -> to <> c /\ In (to, c, s) (m_pend k).
 Proof. exact no_error_to_departed. Qed.
 
+(* 7. Pending activations.  What the C does: the entry of a requester that disconnects STAYS in the pending
+      activation and is skipped, when the outcome arrives, because its connection is no longer connected.  So:
+      a failing activation (child exited, start timeout) answers only requesters that are still connected, hence
+      never a connection that has been torn down, whenever the timers fire; likewise the success reply. *)
+Theorem C10_activation_failure_only_to_connected : forall (k : mstate) d c s,
+  In (MON, ActFail c s) (snd (mini_tick k d)) -> In c (m_completed k).
+Proof. exact activation_failure_only_to_connected. Qed.
+
+Theorem C10_no_activation_error_to_departed : forall (k : mstate) c active d s,
+  ~ In (MON, ActFail c s) (snd (mini_tick (fst (mini_disconnect k c active)) d)).
+Proof. exact no_activation_error_to_departed. Qed.
+
+Theorem C10_activation_success_only_to_connected : forall (k : mstate) c a m w s,
+  In (MON, ActOk w s) (snd (fst (mini_dispatch k c a m))) -> In w (m_completed k).
+Proof. exact activation_success_only_to_connected. Qed.
+
 (* loader level (C11): after corruption no message is ever produced again *)
 Theorem C10_loader_nothing_after_corruption : forall l chunks, l_corrupted l = true -> outcome (feed_all l chunks) = outcome l.
 Proof. exact corruption_is_final. Qed.
@@ -204,6 +220,9 @@ Print Assumptions C10_close_releases_slot.
 Print Assumptions C10_close_frame.
 Print Assumptions C10_close_outputs_prescribed.
 Print Assumptions C10_expiry_exact.
+Print Assumptions C10_activation_failure_only_to_connected.
+Print Assumptions C10_no_activation_error_to_departed.
+Print Assumptions C10_activation_success_only_to_connected.
 Print Assumptions C10_no_error_to_departed.
 
 (* ---- non-vacuity: the extracted instance on a concrete attack ------------------- *)
